@@ -192,6 +192,12 @@ func c03Histories(c *vk.Ctx) {
 		cfgs = append(cfgs, HubCfg{Mode: mode, Sig: "none", Strict: false, Fetch: "actively", Disk: mode == "prefer_crl", Conf: "none", Ocsp: "good"})
 	}
 	hubFocus(c, cfgs, c.Pick(360, 6000), func(d hubDoc) bool { return d.Signer == "A" && d.Q != "down" && d.Q != "critext" }, RandomShape, predC03)
+	// a certificate whose own distribution points are unusable (c3) while a list taken in from another location names it: the
+	// CRL mechanism reports it revoked in every mode that enables it (lists signed by the other CA, signature mode none)
+	hubFocus(c, []HubCfg{
+		{Mode: "prefer_crl", Sig: "none", Strict: false, Fetch: "actively", Disk: false, Conf: "none", Ocsp: "good"},
+		{Mode: "crl_only", Sig: "none", Strict: false, Fetch: "background", Disk: true, Conf: "none", Ocsp: "noaia"},
+	}, c.Pick(240, 4000), func(d hubDoc) bool { return d.Signer == "B" && d.Q == "valid" }, RandomShape, predC03)
 	// a responder that changes its behaviour over time (good, revoked, no answer), answers remembered or not, lenient and strict:
 	// what an earlier handshake learnt - or failed to learn - from OCSP decides nothing later on unless it is a still valid
 	// authentic answer
